@@ -921,7 +921,7 @@ impl<'a> VisitMut for Rw<'a> {
             let mut repl: Option<Expr> = None;
             if let Expr::Match(m) = e {
                 let ng = m.arms.iter().filter(|a| a.guard.is_some()).count();
-                if ng > 0 && ng <= 3 {
+                if ng > 0 && ng <= 5 {
                     let mut arms = m.arms.clone();
                     for a in arms.iter_mut() {
                         if a.comma.is_none() {
@@ -1044,6 +1044,26 @@ impl<'a> VisitMut for Rw<'a> {
                                 "unwrap_or_else" => parse_quote!(match #recv { Some(#x) => #x, None => #b }),
                                 _ => parse_quote!(match #recv { Some(#x) => Ok(#x), None => Err(#b) }),
                             });
+                        }
+                    }
+                }
+            }
+            if repl.is_none() {
+                // Result combinators whose closure takes the error: `X.unwrap_or_else(|e| B)` / `X.map_err(|e| B)` (Verus rejects `|_|`)
+                if let Expr::MethodCall(mc) = e {
+                    let name = mc.method.to_string();
+                    if mc.args.len() == 1 && matches!(name.as_str(), "unwrap_or_else" | "map_err") {
+                        if let Some(c) = closure_of(&mc.args[0]) {
+                            if let Some(p) = closure_single_pat(&c) {
+                                let recv = &mc.receiver;
+                                let b = &c.body;
+                                let x = self.fresh("s");
+                                repl = Some(if name == "unwrap_or_else" {
+                                    parse_quote!(match #recv { Ok(#x) => #x, Err(#p) => #b })
+                                } else {
+                                    parse_quote!(match #recv { Ok(#x) => Ok(#x), Err(#p) => Err(#b) })
+                                });
+                            }
                         }
                     }
                 }
